@@ -683,6 +683,14 @@ func configure(g *gen) {
 			{Callee: "c.Resp", Value: "()", T: T{"opaque", "Unit"}},
 			{Callee: "http.Error", Stmts: []string{"c := c ++ [GoRt.REv.httpError %2 %3]"}},
 		}})
+	// dispatch.go `WrapHTTPHandlers`: std wrappers around the router.  A handler value is `GoRt.HV` (nil, the router, or a
+	// wrapper applied to a handler); the wrappers are identities
+	add(FnSpec{Recv: "Router", Func: "WrapHTTPHandlers", Lean: "Router.WrapHTTPHandlers", NoRecv: true,
+		Types: map[string]T{"http.Handler": {"opaque", "GoRt.HV"}, "[]func(h http.Handler) http.Handler": {"opaque", "List Nat"}},
+		Exts: []Ext{
+			{Callee: "r", Value: "GoRt.HV.router", T: T{"opaque", "GoRt.HV"}},
+			{Callee: "preHandlers[current]", Stmts: []string{"let %t ← GoRt.listAt preHandlers current"}, Value: "(GoRt.HV.wrap %t %1)", T: T{"opaque", "GoRt.HV"}, MayPanic: true},
+		}})
 	// context_render.go: the response helpers as the sequence of calls they make on the context / on `c.Resp`
 	// (`GoRt.REv`); what the renderer and `io.Copy` return (error or not) are parameters
 	rctx := T{"opaque", "List GoRt.REv"}
